@@ -538,6 +538,14 @@ pub fn run_check(check: &dyn Check, opts: &Options) -> i32 {
     let _ = std::fs::remove_dir_all(&scratch);
 
     let wall = t0.elapsed().as_secs_f64();
+    // a check whose workloads mostly cannot be generated has no verdict to give
+    let unbuildable = total.probes.get("workload_unbuildable").copied().unwrap_or(0);
+    if unbuildable > 0 {
+        println!("nsim: warning: {unbuildable} workloads could not be generated on this tree and were skipped");
+        if unbuildable * 2 > n_cases {
+            harness_errors.push(format!("{unbuildable} of {n_cases} workloads could not be generated: no verdict"));
+        }
+    }
     for p in check.expected_probes() {
         if total.probes.get(p).copied().unwrap_or(0) == 0 {
             println!("nsim: warning: probe '{p}' stuck at 0");
